@@ -140,8 +140,19 @@ func runOne(t *testing.T, c *mc.Chooser) (out mc.Outcome) {
 					w.h2req(c1, 1, "/c1", nil, []string{":method", ":scheme", ":path", ":authority"})
 				}},
 				{Name: "disconnect", Do: func() { c1.cl.Close() }},
-				{Name: "reconnect h1 (go std hello)", Do: func() {
-					c2 = mk("C", nil, bubble.Hello{Name: "go", SNI: "example.com", ALPN: []string{"http/1.1"}})
+				{Name: "reconnect h1 (chrome102 without ec_point_formats)", Do: func() {
+					// a hello WITHOUT ec_point_formats (legal; RFC 8422 then assumes uncompressed): a fingerprint field that is
+					// empty for this connection while every other connection has it
+					c2 = mk("C", nil, bubble.Hello{Name: "chrome102-nopoints", ID: &utls.HelloChrome_102, SNI: "example.com", ALPN: []string{"http/1.1"},
+						Mutate: func(spec *utls.ClientHelloSpec) {
+							var keep []utls.TLSExtension
+							for _, e := range spec.Extensions {
+								if _, ok := e.(*utls.SupportedPointsExtension); !ok {
+									keep = append(keep, e)
+								}
+							}
+							spec.Extensions = keep
+						}})
 				}},
 				{Name: "request /c2", Do: func() {
 					if ok(c2.cl) {
